@@ -81,6 +81,12 @@ def generate(rng, tier):
     # 253 inputs / 256 outputs (counts on the compact-size boundary inside the hashed strings)
     for (fl, idx) in [(0x41, 252), (0x43, 252), (0xC1, 0), (0x43, 255)]:
         cases.append(("tx.sighash", [G.BIG_COUNT_TX, str(idx), str(fl), "ac", "1"]))
+    # 4b'. null (coinbase) outpoint and each half of it at the signed index and elsewhere, duplicate null outpoints, sequences
+    # 0 / 0xfffffffe / 0xffffffff, version / locktime 0 and 2^32-1, zero- and max-value outputs with empty scripts: every flag x index
+    for t in G.COINBASE_TXS:
+        for fl in G.FORKID_FLAGS:
+            for idx in range(4):
+                S(t, idx, fl, G.P2PKH, G.VALUES[(idx + fl) % len(G.VALUES)])
     # 4c. state carried in the object: optional annotations (satoshis, locking script) on the signed and on the other inputs, equal
     # and unequal to the call arguments (incl. value 0 / 2^64-1 and the empty subscript), on objects obtained directly, through clone,
     # JSON, CBOR, the construction API and hex; the preimage is a function of the wire fields and the arguments only
